@@ -343,6 +343,10 @@ Lemma Forall2_map_same' {A B C} (R : B -> C -> Prop) (f : A -> B) (g : A -> C) l
   Forall (fun x => R (f x) (g x)) l -> Forall2 R (map f l) (map g l).
 Proof. induction 1; simpl; constructor; auto. Qed.
 
+Lemma Forall2_map_r {A C} (R : A -> C -> Prop) (g : A -> C) l :
+  Forall (fun x => R x (g x)) l -> Forall2 R l (map g l).
+Proof. induction 1; simpl; constructor; auto. Qed.
+
 Theorem sort_individuals_spec t t' :
   sort_individuals t = Ok t' ->
   exists ids,
@@ -395,11 +399,11 @@ Proof.
       rewrite E. reflexivity. }
   cbn [bind] in S. inversion S; subst t'. clear S. cbn [t_inds t_nodes set_inds_nodes].
   exists ids. split; [exact Pids|]. split; [reflexivity|]. split; [|split].
-  - rewrite map_map. apply Forall2_map_same'. apply Forall_forall. intros i Hi.
+  - rewrite map_map. apply Forall2_map_r. apply Forall_forall. intros i Hi.
     destruct (RowIn i Hi) as (r & G & E). exists r. split; auto. rewrite E. unfold newrow, ind_image. simpl.
-    repeat split; auto. apply Forall2_map_same'. apply Forall_forall. intros p Hp.
+    repeat split; auto. apply Forall2_map_r. apply Forall_forall. intros p Hp.
     apply Rn. eapply ParOk; eauto.
-  - apply Forall2_map_same'. apply Forall_forall. intros nd Hn. simpl. split; auto.
+  - apply Forall2_map_r. apply Forall_forall. intros nd Hn. simpl. split; auto.
     apply Rn. specialize (Hnd nd Hn). unfold zlen, n, inds in *. lia.
   - intros q r' p' Hq Hp' Np'.
     rewrite map_map, nth_error_map in Hq. destruct (nth_error ids q) as [x|] eqn:Nx; [|discriminate].
